@@ -169,6 +169,8 @@ func (c CounterStyle) renderValue(counterValue int, counter *CounterStyleDescrip
 		negativePrefix, negativeSuffix string
 		useNegative                    bool
 	)
+	// the value the algorithms work on; the fallback styles receive [counterValue] itself
+	value := counterValue
 	isNegative := counterValue < 0
 	if isNegative {
 		vs := counter.Negative
@@ -178,7 +180,7 @@ func (c CounterStyle) renderValue(counterValue int, counter *CounterStyleDescrip
 		negativePrefix, negativeSuffix = symbol(vs[0]), symbol(vs[1])
 		useNegative = system == "symbolic" || system == "alphabetic" || system == "numeric" || system == "additive"
 		if useNegative {
-			counterValue = utils.Abs(counterValue)
+			value = utils.Abs(counterValue)
 		}
 	}
 
@@ -188,7 +190,7 @@ func (c CounterStyle) renderValue(counterValue int, counter *CounterStyleDescrip
 	)
 	switch system {
 	case "cyclic":
-		initial, ok = repeating(counter.Symbols, counterValue)
+		initial, ok = repeating(counter.Symbols, value)
 		if !ok {
 			return c.RenderValue(counterValue, "decimal")
 		}
@@ -196,7 +198,7 @@ func (c CounterStyle) renderValue(counterValue int, counter *CounterStyleDescrip
 		if len(counter.Symbols) == 0 {
 			return c.RenderValue(counterValue, "decimal")
 		}
-		initial, ok = nonRepeating(counter.Symbols, fixedNumber, counterValue)
+		initial, ok = nonRepeating(counter.Symbols, fixedNumber, value)
 		if !ok {
 			return c.renderValue(counterValue, c.resolveCounter(counter.fallback(), previousTypes), previousTypes)
 		}
@@ -204,17 +206,17 @@ func (c CounterStyle) renderValue(counterValue int, counter *CounterStyleDescrip
 		if len(counter.Symbols) == 0 {
 			return c.RenderValue(counterValue, "decimal")
 		}
-		initial, ok = symbolic(counter.Symbols, counterValue)
+		initial, ok = symbolic(counter.Symbols, value)
 		if !ok {
 			return c.renderValue(counterValue, c.resolveCounter(counter.fallback(), previousTypes), previousTypes)
 		}
 	case "alphabetic":
-		initial, ok = alphabetic(counter.Symbols, counterValue)
+		initial, ok = alphabetic(counter.Symbols, value)
 		if !ok {
 			return c.RenderValue(counterValue, "decimal")
 		}
 	case "numeric":
-		initial, ok = numeric(counter.Symbols, counterValue)
+		initial, ok = numeric(counter.Symbols, value)
 		if !ok {
 			return c.RenderValue(counterValue, "decimal")
 		}
@@ -222,7 +224,7 @@ func (c CounterStyle) renderValue(counterValue int, counter *CounterStyleDescrip
 		if len(counter.AdditiveSymbols) == 0 {
 			return c.RenderValue(counterValue, "decimal")
 		}
-		initial, ok = additive(counter.AdditiveSymbols, counterValue)
+		initial, ok = additive(counter.AdditiveSymbols, value)
 		if !ok {
 			return c.renderValue(counterValue, c.resolveCounter(counter.fallback(), previousTypes), previousTypes)
 		}
